@@ -354,7 +354,7 @@ func init() {
 					var mp orb.MultiPolygon
 					var model [][][]P
 					for k := 0; k < np; k++ {
-						rings := gen.PolygonWithHoles(r, r.Range(4, 10), r.Uniform(3, 9), r.Uniform(3, 9), 2.5, 6, snap, r.Intn(4))
+						rings := gen.MustPolygonWithHoles(r, r.Range(4, 10), r.Uniform(3, 9), r.Uniform(3, 9), 2.5, 6, snap, r.Intn(4))
 						model = append(model, rings)
 						var pg orb.Polygon
 						for _, rr := range rings {
@@ -483,7 +483,7 @@ func init() {
 							rr, _ := c08genRing(r)
 							return pToRing(rr)
 						case 5:
-							rings := gen.PolygonWithHoles(r, r.Range(4, 8), r.Uniform(3, 9), r.Uniform(3, 9), 2, 5, 0.5, r.Intn(3))
+							rings := gen.MustPolygonWithHoles(r, r.Range(4, 8), r.Uniform(3, 9), r.Uniform(3, 9), 2, 5, 0.5, r.Intn(3))
 							var pg orb.Polygon
 							for _, rr := range rings {
 								pg = append(pg, pToRing(rr))
@@ -493,7 +493,7 @@ func init() {
 							bx := c08box(r, -1, 13, true)
 							return boundOf(bx[0], bx[1], bx[2], bx[3])
 						default:
-							rings := gen.PolygonWithHoles(r, 5, r.Uniform(3, 9), r.Uniform(3, 9), 1, 3, 0, 1)
+							rings := gen.MustPolygonWithHoles(r, 5, r.Uniform(3, 9), r.Uniform(3, 9), 1, 3, 0, 1)
 							var pg orb.Polygon
 							for _, rr := range rings {
 								pg = append(pg, pToRing(rr))
